@@ -224,6 +224,7 @@ def run(repo='/repo', tier='quick'):
             else:
                 res.holds('C09.e', dn + ':counts-once', '%d accepting paths each call %s(conn, len) exactly once' % (npaths, track), fn.loc)
 
+    c09f(db, res)
     c09d(db, res)
     res.assumptions += ['callbacks return only documented htp_status_t codes', 'liveness (no endless DATA_OTHER ping-pong) is not decided']
     return res
@@ -340,3 +341,30 @@ def _bulk_reason(fn, bid, i, d, facts):
                 return 'on all %d paths either %s == 0 or %s += %s was executed with %s != 0 afterwards, where %s = min(%s, %s)' % (n, var, off, var, left, var, left, avail)
             return 'on all %d paths either %s == 0 or everything available was consumed (%s = %s)' % (n, var, var, avail)
     return None
+
+
+def c09f(db, res):
+    """sticky states are never overwritten from outside the direction's own parser"""
+    res.rule('C09.f', 'ERROR and STOP are sticky: every assignment to a direction\'s status made outside that direction\'s own driver / state functions is guarded by status != ERROR and status != STOP (or by a test for a specific non-final value)')
+    n = 0
+    for d in ('in', 'out'):
+        fld = '%s_status' % d
+        own = set(P.state_functions(db, d)) | {DRIVERS[d], 'htp_connp_create', 'htp_connp_open'}
+        for name, f in sorted(db.fn.items()):
+            if name in own:
+                continue
+            for b, i, x in P.field_writes(f, fld):
+                n += 1
+                key_l = P.K(x['l'])
+                facts = [a for a, e in P.facts_at(f, b) if a[0] == key_l]
+                specific = any(a[1] == '==' and a[2] not in ('HTP_STREAM_ERROR', 'HTP_STREAM_STOP') for a in facts)
+                ne = any(a[1] == '!=' and a[2] == 'HTP_STREAM_ERROR' for a in facts)
+                ns = any(a[1] == '!=' and a[2] == 'HTP_STREAM_STOP' for a in facts)
+                key = '%s:%s=%s' % (name, fld, lit_name(x['r']) or P.K(x['r']))
+                if specific or (ne and ns):
+                    res.holds('C09.f', key, 'guarded against overwriting a final state', x['loc'])
+                else:
+                    missing = [s for s, ok in (('HTP_STREAM_ERROR', ne), ('HTP_STREAM_STOP', ns)) if not ok]
+                    res.violated('C09.f', key, '%s overwrites %s without testing it against %s: a direction that reported %s is revived and later calls run parsing callbacks again'
+                                 % (name, key_l, ' / '.join(missing), ' / '.join(m.replace('HTP_STREAM_', '') for m in missing)), x['loc'])
+    res.floor('C09.f', 'status writes outside the owning direction', n, 4)
